@@ -97,9 +97,13 @@ def bounded(params):
             if bad and len(failures) < 5:
                 failures.append({"input": {"X": X.astype(int).tolist(), "Y": Y.astype(int).tolist()}, "problems": bad[:3], "replay_kind": "c07.assd"})
     nrng = np.random.RandomState(seed)
-    for _ in range(10 if tier == "quick" else 200):
+    for it_no in range(16 if tier == "quick" else 300):
         nd = rng.choice([1, 2, 3])
         shape = tuple(nrng.randint(2, 6, size=nd))
+        if it_no % 4 == 3 and nd > 1:
+            # a singleton axis (a 2-D image stored as a one-slice volume): the out-of-array faces along it still make every voxel a border voxel
+            ax = rng.randrange(nd)
+            shape = tuple(1 if k == ax else max(3, s) for k, s in enumerate(shape))
         X, Y = nrng.rand(*shape) < 0.4, nrng.rand(*shape) < 0.4
         if X.any() and Y.any():
             evals += 1
@@ -109,6 +113,20 @@ def bounded(params):
                 bad = [f"raised {type(e).__name__}: {e}"[:160]]
             if bad and len(failures) < 5:
                 failures.append({"input": {"X": X.astype(int).tolist(), "Y": Y.astype(int).tolist()}, "problems": bad[:3], "replay_kind": "c07.assd"})
+    # solid objects in arrays with a singleton axis (one-slice volume, one-column image): interior voxels are border voxels there
+    for shape, ax in (((1, 6, 6), 0), ((6, 6, 1), 2), ((6, 1, 6), 1), ((1, 7), 0), ((7, 1), 1)):
+        X, Y = np.zeros(shape, bool), np.zeros(shape, bool)
+        sl = lambda lo, hi: tuple(slice(None) if k == ax else slice(lo, hi) for k in range(len(shape)))
+        X[sl(0, 4)] = True
+        Y[sl(1, 6)] = True
+        evals += 1
+        nontriv += 1
+        try:
+            bad = check_pair(X, Y)
+        except Exception as e:
+            bad = [f"raised {type(e).__name__}: {e}"[:160]]
+        if bad and len(failures) < 5:
+            failures.append({"input": {"X": X.astype(int).tolist(), "Y": Y.astype(int).tolist()}, "problems": bad[:3], "replay_kind": "c07.assd"})
     return {"evaluations": evals, "distinct_nontrivial": nontriv, "failures": failures, "exhaustive": tier != "quick",
             "rule": "pairs of non-empty binary masks of shape (5,), (2,3), (2,2,2) (quick: 250 seeded pairs per shape; thorough: all up to 5000) plus seeded larger masks: real ASSD vs brute-force border/nearest-distance specification, symmetry, zero-iff-borders-coincide, invariance under zero padding, label-selection form; this also conformance-tests the assumed scipy erosion / feature-transform contracts",
             "bound": "<= 8 voxels exhaustive family, up to 5^3 seeded"}
